@@ -132,5 +132,8 @@ def run(facts, tier):
                                         "children of the selected element are not the parsed replacement" % (v, made, want[v]), f["file"], arm.get("ln"), {}))
     if st6["instances"] < 5:
         raise BrokenCheck("C17-6: %d node kinds rebuilt in append_child_to_tree (floor 5)" % st6["instances"])
+    # ---- C17-7: xe empties the selected node with child_nodes() + remove_child(); merged text nodes must go completely
+    from props import c13
+    c13.r13_5(facts, res, "C17-7")
     res.functions_analysed = sum(1 for f in facts.fns.values() if f["crate"] in TOOLS)
     return res
